@@ -199,7 +199,8 @@ fn c09_as_loop() {
     let attrs = Arc::new(fixed_vec([a], 1));
     let keep = attrs.clone();
     let got = is_as_loop(&attrs, local, confed);
-    let has = |x: u32| asns[0] == x || asns[1] == x || asns[2] == x;
+    // skeleton [1 ASN][1 ASN]: slots 0 and 2 are in use (slot 1 belongs to a 2-ASN leading segment)
+    let has = |x: u32| asns[0] == x || asns[2] == x;
     let want = has(local) || (confed != 0 && confed != local && has(confed));
     assert!(got == want);
     // no AS_PATH at all: never a loop
